@@ -159,6 +159,7 @@ pub fn judge_live(c: &crate::props::planted::PCase) -> Verdict {
     let (ps, pe) = o.principal.unwrap_or((0, 0));
     let mut included = 0;
     let mut excluded = 0;
+    let mut dont_care_threads = 0u64;
     for (i, tid) in o.tids.iter().enumerate() {
         let Some(t) = threads.iter().find(|t| t.tid as i32 == *tid) else { bad!("thread-record-missing", "thread {tid} has no record") };
         if t.ctx.size == 0 {
@@ -178,17 +179,30 @@ pub fn judge_live(c: &crate::props::planted::PCase) -> Verdict {
         let start = sp & !4095;
         let Some(mem) = o.target.read_mem(start, (st.end - start) as usize) else { return Verdict::Inconclusive("cannot read target stack".into()) };
         let mut holds = false;
+        // with a triggered size limit the stacks of threads at list position >= 20 (main thread = 0) are cut
+        // to the 2 KiB chunk containing sp; a reference that lies beyond that chunk is then outside what the
+        // statement clearly covers (don't-care for this thread)
+        let shortened = c.limit && i + 1 >= 20 && !is_crash;
+        let scan_end = if shortened { ((((sp - start) / 2048) * 2048 + 2048) as usize).min(mem.len()) } else { mem.len() };
+        let mut holds_beyond = false;
         if o.principal.is_some() {
             let mut pos = (((sp - start) + 7) & !7) as usize;
             while pos + 8 <= mem.len() {
                 let v = u64::from_le_bytes(mem[pos..pos + 8].try_into().unwrap());
                 // the spinner keeps rewriting its slot with a counter; counters are far from any mapping
                 if v >= ps && v < pe {
-                    holds = true;
-                    break;
+                    if pos + 8 <= scan_end {
+                        holds = true;
+                        break;
+                    }
+                    holds_beyond = true;
                 }
                 pos += 8;
             }
+        }
+        if shortened && !holds && holds_beyond && !rip_inside {
+            dont_care_threads += 1;
+            continue;
         }
         let want = rip_inside || holds;
         let got = t.stack.size != 0;
@@ -230,6 +244,10 @@ pub fn judge_live(c: &crate::props::planted::PCase) -> Verdict {
     if included > 0 && excluded > 0 {
         classes.push("mixed-included-excluded".into());
     }
+    crate::fw::count("shortened-threads-with-reference-beyond-kept-chunk", dont_care_threads);
+    if c.limit && o.tids.len() >= 20 {
+        classes.push("size-limit-shortens-stacks".into());
+    }
     crate::fw::count("stacks-included", included);
     crate::fw::count("stacks-excluded", excluded);
     Verdict::pass_c(if included > 0 && excluded > 0 { Some(fp_json(c)) } else { None }, classes)
@@ -241,8 +259,8 @@ pub fn run(ctx: &mut LaneCtx) {
         SubSpec {
             name: "live-filter",
             cases: (960, 20_000),
-            rule: "1..24 threads on custom stacks with planted words (pointer into the principal mapping / another mapping / one past its end / own stack / small ints, at aligned slots above sp, below sp, or unaligned), spinners running inside an executable mapping, principal address inside a mapping or in a hole, crash context on a chosen thread with rip inside/outside; oracle = stack present iff rip inside or aligned word at/above sp points into the mapping, records+contexts always present, soft error as stated; non-trivial = at least one included and one excluded stack in the same dump; distinct = hash of case",
-            strategy: crate::props::planted::case_strategy(None, Some(true), Some(false))
+            rule: "1..43 threads on custom stacks (with or without a size limit that shortens the stacks of threads at position >= 20 to the 2 KiB chunk holding sp) with planted words (pointer into the principal mapping / another mapping / one past its end / own stack / small ints, at aligned slots above sp, below sp, or unaligned), spinners running inside an executable mapping, principal address inside a mapping or in a hole, crash context on a chosen thread with rip inside/outside; oracle = stack present iff rip inside or aligned word at/above sp points into the mapping, records+contexts always present, soft error as stated; non-trivial = at least one included and one excluded stack in the same dump; distinct = hash of case",
+            strategy: crate::props::planted::case_strategy(None, Some(true), None)
                 .prop_map(|mut c| {
                     if c.principal.is_none() {
                         c.principal = Some(0);
